@@ -8,7 +8,8 @@
    consults the registries by lookup only ([render_ext]).  Nothing else is assumed about them.
    The model ([store_step], [world_step], evict_first = false) is loader.rs / environment.rs with
    the fix "compile before evicting"; the specification ([spec_step], [sworld_step]) acts on contents
-   only: name -> source, the current loader, and name -> function for each registry. *)
+   only: name -> (configuration when added/loaded, source), the current loader, the current
+   configuration, and name -> function for each registry. *)
 From MJ Require Import Common.Base C15.Vocab C15.Model C15.Spec C15.Proofs C15.Runner.
 
 (* For every finite history of {add (borrowed), add (owned), remove, clear, set_loader, get at any
@@ -36,7 +37,8 @@ Proof. exact history_independent_proof. Qed.
 
 (* An addition that fails to compile returns the error and leaves the store literally unchanged
    (any store, both flavours of add). *)
-Theorem failed_add_is_noop : forall tmpl compile loader (s : store tmpl) n x e, compile x = CErr e ->
+Theorem failed_add_is_noop : forall tmpl compile loader (s : store tmpl) n x e,
+  compile (MTemplate (cfg _ s)) x = CErr e ->
   store_step tmpl compile loader false s (OAddBorrowed n x) = (s, SAdd (Some e)) /\
   store_step tmpl compile loader false s (OAddOwned n x) = (s, SAdd (Some e)).
 Proof. exact failed_add_is_noop_proof. Qed.
@@ -47,7 +49,8 @@ Proof. exact failed_add_is_noop_proof. Qed.
    neither adds nor removes [n] nor clears the templates. *)
 Theorem loader_source_pinned : forall tmpl compile loader (h : list sop) n now l x t,
   tpl (abs tmpl (final tmpl compile loader h)) n = None ->
-  ldr _ (final tmpl compile loader h) = Some l -> loader l now n = LFound x -> compile x = COk t ->
+  ldr _ (final tmpl compile loader h) = Some l -> loader l now n = LFound x ->
+  compile (MTemplate (cfg _ (final tmpl compile loader h))) x = COk t ->
   snd (get tmpl compile loader (final tmpl compile loader h) n now) = GOk t /\
   forall h', forallb (fun o => negb (touches n o)) h' = true ->
   forall now',
@@ -109,21 +112,57 @@ Theorem failed_add_evicts_before_fix_sym :
   snd (get Z demo_compile demo_loader (run false) 7 0) = GOk 1.
 Proof. exact failed_add_evicts_before_fix_sym_proof. Qed.
 
+(* Ad-hoc entry points - render_named_str, render_str, template_from_named_str, template_from_str,
+   compile_expression(_owned), undeclared-variables analysis - given ANY name (also one that is stored or
+   that the loader serves) and ANY source: the world (templates, loader memo, registries, both
+   environments) is left exactly as it was, so the rest of any history runs as if the operation had not
+   happened, and the result is the source compiled under the CURRENT configuration and rendered against
+   the current registries (no stored compilation is reused, the loader is not asked). *)
+Theorem adhoc_is_noop : forall tmpl compile loader render (w : world tmpl) how n x h,
+  (fst (world_step tmpl compile loader false render w (WAdhoc how n x)) = w) /\
+  (fst (world_run tmpl compile loader false render w (WAdhoc how n x :: h)) = fst (world_run tmpl compile loader false render w h)) /\
+  (snd (world_run tmpl compile loader false render w (WAdhoc how n x :: h)) =
+     (snd (world_step tmpl compile loader false render w (WAdhoc how n x)) :: snd (world_run tmpl compile loader false render w h))) /\
+  (snd (world_step tmpl compile loader false render w (WAdhoc how n x)) =
+     (match compile (adhoc_mode how (cfg _ (st _ (cur _ w)))) x with
+      | COk t => render t (regs_of tmpl (hp _ w) (cur _ w))
+      | CErr c => o_err c
+      end)).
+Proof. exact adhoc_is_noop_proof. Qed.
+
+(* ... and after any history that result is the specification's: a function of the contents only. *)
+Theorem adhoc_result : forall tmpl compile loader builtin render,
+  (forall t f g, (forall k nm, f k nm = g k nm) -> render t f = render t g) ->
+  forall (h : list wop) how n x,
+  snd (world_step tmpl compile loader false render (wfinal tmpl compile loader builtin render h) (WAdhoc how n x)) =
+  snd (sworld_step tmpl compile loader render (sfinal tmpl compile loader builtin render h) (WAdhoc how n x)).
+Proof. exact adhoc_result_proof. Qed.
+
 (* non-vacuity: the concrete instance used by the correspondence run satisfies [render_ext]; the
    hypotheses of loader_source_pinned hold for a concrete history (loader 1 at time 0 gives name 1 the
    compiling source 16024; at time 1 it would give a different one), and two different histories reach
    the same contents *)
 Example render_ext_instance : forall t f g, (forall k nm, f k nm = g k nm) -> c_render t f = c_render t g.
-Proof. intros t f g H. unfold c_render. rewrite !H. reflexivity. Qed.
+Proof. intros [m t] f g H. unfold c_render, c_base. rewrite !H. reflexivity. Qed.
 Example loader_source_pinned_witness :
   let s := final ctmpl c_compile c_loader [OAddOwned 0 40; OSetLoader 1] in
-  tpl (abs ctmpl s) 1 = None /\ ldr _ s = Some 1 /\ c_loader 1 0 1 = LFound 16024 /\ c_compile 16024 = COk 16024 /\
+  tpl (abs ctmpl s) 1 = None /\ ldr _ s = Some 1 /\ c_loader 1 0 1 = LFound 16024 /\ c_compile (MTemplate 0) 16024 = COk (0, 16024) /\
   c_loader 1 1 1 = LFound 16187.
 Proof. vm_compute. repeat split. Qed.
 Example history_independent_witness :
   sim (abs ctmpl (final ctmpl c_compile c_loader [OAddOwned 0 40; OAddBorrowed 0 9; OAddBorrowed 1 48; ORemove 1; OAddOwned 1 48]))
       (abs ctmpl (final ctmpl c_compile c_loader [OAddBorrowed 1 48; OAddOwned 0 40])).
-Proof. split; [|reflexivity]. intros n. vm_compute. destruct n as [|[p|p|]|p]; try reflexivity; destruct p; reflexivity. Qed.
+Proof. split; [|split; reflexivity]. intros n. vm_compute. destruct n as [|[p|p|]|p]; try reflexivity; destruct p; reflexivity. Qed.
+
+(* the configuration matters: the same source stored under configuration 0 and rendered ad hoc after
+   set_trim_blocks(true) gives different outputs ("\n5" vs "5"), and the stored one keeps its own *)
+Example adhoc_uses_current_config_witness :
+  run [0; 4;  0; 0; 46;  22; 1; 0;  14; 0; 46;  8; 0; 0] =
+      [2; 0;  5; 21; 1; 5; 1; 5; 1; 5;  0; 0; 0; 0; 0; 0; 0; 0; 0;
+       2; 0;  5; 21; 1; 5; 1; 5; 1; 5;  0; 0; 0; 0; 0; 0; 0; 0; 0;
+       0; 5;  5; 21; 1; 5; 1; 5; 1; 5;  0; 0; 0; 0; 0; 0; 0; 0; 0;
+       5; 21; 5; 21; 1; 5; 1; 5; 1; 5;  0; 0; 0; 0; 0; 0; 0; 0; 0].
+Proof. vm_compute. reflexivity. Qed.
 
 Print Assumptions store_refines_map.
 Print Assumptions get_is_lookup.
@@ -133,5 +172,7 @@ Print Assumptions loader_source_pinned.
 Print Assumptions world_refines_spec.
 Print Assumptions clone_isolated.
 Print Assumptions env_history_independent.
+Print Assumptions adhoc_is_noop.
+Print Assumptions adhoc_result.
 Print Assumptions failed_add_evicts_before_fix.
 Print Assumptions failed_add_evicts_before_fix_sym.
